@@ -80,7 +80,8 @@ theorem resolve_sim (mtpOf : Nat → Nat) (db : DB) (b : Block) (inp : TxIn) (s 
     ∃ c, aGet u inp.prev = some c ∧ c.value = v ∧ c.script = pk
       ∧ ¬ (c.coinbase = true ∧ b.height - c.height < 100)
       ∧ Inv mtpOf db b s1 (aDel u inp.prev)
-      ∧ keys s1.blUnsp = keys s.blUnsp := by
+      ∧ keys s1.blUnsp = keys s.blUnsp
+      ∧ (absGet mtpOf db inp.prev = some c ∨ (absGet mtpOf db inp.prev = none ∧ c.height = b.height ∧ c.mtpPrev = b.mtp)) := by
   obtain ⟨hR, hn⟩ := hinv
   unfold resolve at h
   cases he : earlyCheck (aGet s.deled inp.prev.hash) inp.prev.vout with
@@ -142,7 +143,7 @@ theorem resolve_sim (mtpOf : Nat → Nat) (db : DB) (b : Block) (inp : TxIn) (s 
             unfold delMarked
             rw [← hop, hd]
         obtain ⟨m', h1, hlen', hget'⟩ := hmark
-        refine ⟨foundCoin mtpOf tout, ?_, h2, h3, ?_, ⟨?_, ?_⟩, ?_⟩
+        refine ⟨foundCoin mtpOf tout, ?_, h2, h3, ?_, ⟨?_, ?_⟩, ?_, Or.inl (by rw [absGet_unspentGet, hu]; rfl)⟩
         · rw [hR, view, hu]; simp [hnm]
         · intro hc
           apply hmat
@@ -196,7 +197,7 @@ theorem resolve_sim (mtpOf : Nat → Nat) (db : DB) (b : Block) (inp : TxIn) (s 
             | false =>
               simp only [Bool.false_eq_true, ↓reduceIte, Except.ok.injEq, Prod.mk.injEq] at h
               obtain ⟨h1, h2, h3⟩ := h
-              refine ⟨⟨o.value, o.script, b.height, false, b.mtp⟩, ?_, h2, h3, by simp, ⟨?_, ?_⟩, ?_⟩
+              refine ⟨⟨o.value, o.script, b.height, false, b.mtp⟩, ?_, h2, h3, by simp, ⟨?_, ?_⟩, ?_, Or.inr ⟨by rw [absGet_unspentGet, hu]; rfl, rfl, rfl⟩⟩
               · rw [hR, view, hu]; simp only [hbu, ho, Option.map_some]
               · intro op
                 rw [aGet_aDel, hR op]
